@@ -212,7 +212,7 @@ def run_tlc(ctx, module, cfg, name, workers=4, simulate=None, depth=None, timeou
                     errors.append("unparsable emission: %r (%s)" % (s[:200], ex))
                 continue
             lf.write(line)
-            if line.startswith('<<"M", '):
+            if line.startswith('"M|'):
                 msgs.append(line.rstrip("\n"))
             m = _STAT.search(line)
             if m:
